@@ -80,7 +80,7 @@ fn run_finder_opt(
     };
     // with `forks`: a copy of the Finder (clone / serde round trip / clone_from into a used Finder of another
     // configuration); the copy serves the even sequences and the forks, the original the odd ones
-    let salt = starts.len() + 2 * stops.len() + min_len + seqs.first().map(|t| t.len()).unwrap_or(0);
+    let salt = (starts.len() + 2 * stops.len()).wrapping_add(min_len).wrapping_add(seqs.first().map(|t| t.len()).unwrap_or(0));
     let finder_copy = if forks {
         match salt % 3 {
             0 => {
